@@ -31,6 +31,21 @@ Fixpoint trnb (l : list (ann * list pstmt)) : list (Z * list cnode) :=
   match l with [] => [] | (c, b) :: r => (a_id c, trn b) :: trnb r end.
 
 (* top level of setup: a first assignment declares a global ([D] = names declared so far) *)
+(* tuple declaration of new globals: per element what a first top-level assignment does *)
+Fixpoint tup_nodes (xs : list ident) (es : list ann) : list cnode :=
+  match xs, es with
+  | x :: xr, e :: er =>
+      (if closed_const e then [] else [NAssign x (XE (a_id e))]) ++ tup_nodes xr er
+  | _, _ => []
+  end.
+Fixpoint tup_globals (xs : list ident) (es : list ann) : list gdecl :=
+  match xs, es with
+  | x :: xr, e :: er =>
+      {| g_name := x; g_ty := a_ty e;
+         g_init := if closed_const e then XE (a_id e) else XDefault (a_ty e) |} :: tup_globals xr er
+  | _, _ => []
+  end.
+
 Fixpoint trt (D : list ident) (ps : list pstmt) : list cnode * list gdecl :=
   match ps with
   | [] => ([], [])
@@ -43,6 +58,10 @@ Fixpoint trt (D : list ident) (ps : list pstmt) : list cnode * list gdecl :=
                      {| g_name := x; g_ty := a_ty e; g_init := XE (a_id e) |} :: snd (trt (D ++ [x]) r))
                else (NAssign x (XE (a_id e)) :: fst (trt (D ++ [x]) r),
                      {| g_name := x; g_ty := a_ty e; g_init := XDefault (a_ty e) |} :: snd (trt (D ++ [x]) r))
+      | PTuple xs es =>
+          if Nat.eqb (length xs) (length es) && forallb (fun x => negb (tmem x D)) xs && nodupb xs
+          then (tup_nodes xs es ++ fst (trt (D ++ xs) r), tup_globals xs es ++ snd (trt (D ++ xs) r))
+          else (fst (trt D r), snd (trt D r))
       | _ => (tr1 p ++ fst (trt D r), snd (trt D r))
       end
   end.
@@ -97,7 +116,7 @@ Definition g_step (f : nat) (top : bool) (D : tenv) (L : list ident) (p : pstmt)
            | Some t => if ty_eqb t t_after then Some D else None
            | None => None
            end
-  | PTuple _ _ => None
+  | PTuple xs es => if top && tuple_decl_ok D L xs es then Some (D ++ combine xs (map a_ty es)) else None
   | PBreak => Some D
   | PWrite e | PSleep e | PExprS e => if fv_ok D L e then Some D else None
   | PIf c body elifs els =>
